@@ -23,8 +23,8 @@ type statObs struct {
 	opens int
 }
 
-func (o *statObs) OnOpen(s txfile.FileStats)    { o.open, o.last = s, s; o.opens++ }
-func (o *statObs) OnTxBegin(bool)               {}
+func (o *statObs) OnOpen(s txfile.FileStats) { o.open, o.last = s, s; o.opens++ }
+func (o *statObs) OnTxBegin(bool)            {}
 func (o *statObs) OnTxClose(f txfile.FileStats, t txfile.TxStats) {
 	if !t.Readonly && t.Commit {
 		o.last = f
@@ -154,7 +154,7 @@ func init() {
 	register("c11", func(args []string) int {
 		f := parseFlags("c11", args)
 		rep := newReport("C11", f)
-		rep.Rule = "long alloc/free/overwrite cycle histories (no overflow transactions) on bounded configurations (64-256 pages, meta area 0/1/4/8, prealloc); after every commit / rollback / close / reopen: allocatable + live + meta area + 2 == max pages, file extent <= max size, Observer FileStats == (live, meta area, meta in use); every 7th point and at the end a capacity probe (allocate until failure in a rolled-back transaction) must equal the allocatable count. Non-trivial: distinct (config, op statistics)."
+		rep.Rule = "long alloc/free/overwrite cycle histories (no overflow transactions) on bounded configurations (64-256 pages, meta area 0/1/4/8, prealloc); plus short abort-heavy histories (50% of the transactions end in Rollback/Close); after every commit / rollback / close / reopen: allocatable + live + meta area + 2 == max pages, file extent <= max size, Observer FileStats == (live, meta area, meta in use); every 7th point and at the end a capacity probe (allocate until failure in a rolled-back transaction) must equal the allocatable count. Non-trivial: distinct (config, op statistics)."
 		if f.replay != "" {
 			rp, err := loadHistReplay(f.replay)
 			if err != nil {
@@ -191,6 +191,22 @@ func init() {
 			if i < 2 {
 				rep.sample(map[string]interface{}{"config": cfg.String(), "ops": len(ops)})
 			}
+		}
+		// part 2: short histories on files that are not full, half of the transactions end in Rollback / Close
+		// (pages allocated, freed and allocated again inside a transaction that does not commit)
+		for i := 0; i < 4*n; i++ {
+			hseed := r.Int63()
+			hr := rand.New(rand.NewSource(hseed))
+			cfg := cfgs[hr.Intn(len(cfgs))]
+			prof := gen.DefaultProfile()
+			prof.Overflow = false
+			prof.Readers = false
+			prof.MaxTx = 8
+			prof.AbortPct = 50
+			prof.MaxBody = 12
+			ops := gen.History(hr, prof)
+			rep.count("part2:abort-heavy-histories", 1)
+			c11History(rep, cfg, ops, hseed)
 		}
 		return rep.finish(f)
 	})
